@@ -5,6 +5,11 @@ V = os.path.dirname(os.path.dirname(os.path.abspath(__file__)))
 
 # id -> dict(level, engine, technique, text, note, design)
 CLAIMED = {
+ "C13": dict(level="exploration", engine="vsh-virtual",
+   technique="schedule exploration of the real shell on the virtual kernel under our own executor (FIFO, depth-first enumeration of scheduling choices, preemption-bounded DFS, random preempting schedules) with a reference-interpreter oracle, logical deadlock detection and a process-table monitor",
+   text="1500 (quick) / 30000 (thorough) generated race-free programs mixing 2-4 stage pipelines (incl. blocking producer/consumer pairs and writers whose reader exits early), async lists with $!/wait for one/several/all/unknown pids, nested subshells, command substitutions, pipefail; each run under FIFO, DFS over scheduling choices (cap 60/400), DFS with <=2 preemptions (cap 60/400) and 20/60 random preempting schedules (~10^5 / 10^7 runs). Checked per run: per-process traces and $? vs the model (hence schedule independence), $! identity, exit status, deadlock = no runnable task and no timer, no live or unreaped child at exit.",
+   note="Trusted: models/ctl.rs; the virtual kernel as the arena (its fidelity is C19); preemption only at Concurrent read/write/read_all/write_all/set_disposition (verif-hooks). Traps are not mixed with wait here (C11-B).",
+   design="5/C13"),
  "C02": dict(level="exploration", engine="vsh-virtual",
    technique="reference-interpreter monitor: generated programs (every leaf a probe) run by the complete shell; probe order, $? at every probe and final exit status compared with the model",
    text="Systematic: every construct nested in every construct to depth 2 (quick) / 3 around each of 12 leaves. Random: 1.5*10^5 (quick) / 3*10^6 programs of up to 40 nodes with varied surface syntax (newline vs ;, line continuation after && || |, optional parentheses in case), iteration-dependent conditions, functions, multi-command pipelines (per-stage lanes), each under FIFO and one random preempting schedule.",
